@@ -167,7 +167,9 @@ Definition set_state (site : nat) e i s : eng :=
                t_tmo_done := t_tmo_done t; t_timeouts := t_timeouts t; t_evproc := t_evproc t;
                t_silent := t_silent t; t_hooks := t_hooks t; t_data := t_data t; t_exposed := t_exposed t |} in
   let e1 := add_ev (with_clock (with_tasks e (upd (tasks e) i t')) c) (ETrans i (t_state t) s c site) in
-  if is_completed s && Nat.eqb i 0 then with_pstate e1 s else e1.
+  (* a state is only ever written to a task that exists (set_state is a method of the task) *)
+  if negb (Nat.ltb i (length (tasks e))) then e
+  else if is_completed s && Nat.eqb i 0 then with_pstate e1 s else e1.
 
 Definition tset_err (t : task) err := {| t_nid := t_nid t; t_state := t_state t; t_prev := t_prev t; t_err := err;
   t_catch_done := t_catch_done t; t_catches := t_catches t; t_start := t_start t; t_end := t_end t; t_tmo_done := t_tmo_done t;
